@@ -103,16 +103,18 @@ def run(run):
     if os.path.exists(corpus):
         mism += run_stream(["-mode", "corpus", "-file", corpus], run, stats, samples, stride=1)
     n_corpus, n_vm_corpus = stats.get("n", 0), len(VM)
-    length = 5 if run.tier == "quick" else 6
-    shards = C.NPROC if run.tier == "thorough" else 4
+    # anchor drift (ValidatePort changed since the pinned tree): the quick tier takes the thorough tier's exhaustive length
+    big = run.tier == "thorough" or run.escalate > 1
+    length = 6 if big else 5
+    shards = C.NPROC if big else 4
     import concurrent.futures as cf
     with cf.ThreadPoolExecutor(max_workers=shards) as ex:
         futs = [ex.submit(run_stream, ["-mode", "exhaustive", "-len", str(length), "-shard", str(i), "-shards", str(shards)],
-                          run, stats, samples, 4000 if run.tier == "quick" else 40000) for i in range(shards)]
+                          run, stats, samples, 40000 if big else 4000) for i in range(shards)]
         for f in futs:
             mism += f.result()
     n_exh = stats.get("n", 0) - n_corpus
-    nrand = 300000 if run.tier == "quick" else 5000000
+    nrand = run.scaled(300000) if run.tier == "quick" else 5000000     # anchor drift: escalated budget
     mism += run_stream(["-mode", "random", "-n", str(nrand), "-seed", str(run.seed)], run, stats, samples, nrand // 150)
     handle_mismatches(run, mism)
     # extraction re-validation: the whole corpus + a deterministic sample of the exhaustive and random cases, re-evaluated
